@@ -56,6 +56,7 @@ class World:
         self.closed_by_client = []
         self.conn_life = []
         self.good_replies = 0
+        self.handshake_reply_s = []
         self.second_connections = 0
         self.contacted = set()
         self.peer_last_sent = {}
@@ -66,7 +67,7 @@ class World:
             self.log.append("%.3f %s" % (time.time() - T0, " ".join(str(x) for x in a)))
 
     def expected_files(self):
-        base = self.sc["name"] if len(self.files) > 1 else ""
+        base = self.sc["name"] if not self.sc["single"] else ""
         out, off = {}, 0
         for p, l in self.files:
             out[os.path.join(base, p) if not self.sc["single"] else self.sc["name"]] = self.data[off:off + l]
@@ -92,6 +93,9 @@ async def tracker(w, reader, writer):
     if kind == "close":
         writer.close()
         return
+    if kind == "slow500":
+        await asyncio.sleep(1.3)  # a failure that takes longer than the client's retry pause
+        kind = "http500"
     if kind == "http500":
         writer.write(b"HTTP/1.1 500 Internal Server Error\r\nContent-Length: 0\r\nConnection: close\r\n\r\n")
     else:
@@ -284,7 +288,10 @@ async def seeder(w, p, reader, writer, we_connect):
             if p.get("handshake_delay_ms"):
                 await asyncio.sleep(p["handshake_delay_ms"] / 1000)
             await send(w, writer, my_hs, chunk)
+        t_hs = time.time()
         hs = await asyncio.wait_for(reader.readexactly(68), 30)
+        if we_connect:
+            w.handshake_reply_s.append({"port": p["port"], "after_s": round(time.time() - t_hs, 2), "at_s": round(t_hs - T0, 2), "good_replies_then": w.good_replies})
         if p.get("kind") == "visitor":
             await send(w, writer, struct.pack(">IB", 1 + (n + 7) // 8, 5) + bytes((n + 7) // 8), 0)
             await asyncio.sleep(p.get("linger_ms", 100) / 1000)
@@ -479,10 +486,25 @@ async def main():
     for p in sc["peers"]:
         if not p["incoming"] and not p.get("dead"):
             servers.append(await asyncio.start_server(lambda r, wr, p=p: seeder(w, p, r, wr, False), "127.0.0.1", p["port"], reuse_port=bool(p.get("second_connection_from_own_port"))))
+    dirs_before = set()
+    for root, dirs, _ in os.walk(cell):
+        for dn in dirs:
+            dirs_before.add(os.path.abspath(os.path.join(root, dn)))
+    # a damaged piece file left from an earlier run (right name and length, wrong bytes)
+    if sc.get("leftover_piece") is not None:
+        i = sc["leftover_piece"] % len(w.pieces)
+        open(os.path.join(work, w.hashes[i].hex().upper() + ".piece"), "wb").write(bytes(b ^ 0x5A for b in w.pieces[i]))
     out = open(os.path.join(work, "stdout.txt"), "wb")
     env = dict(os.environ)
     env.update(sc.get("env", {}))
-    proc = await asyncio.create_subprocess_exec(binary, "get", targ, cwd=work, stdout=out, stderr=subprocess.STDOUT, env=env)
+    if sc.get("stdout_closed"):
+        # stdout is a pipe whose reader is gone (`rdest get x | head`): messages are lost, the job is not
+        pr, pw = os.pipe()
+        os.close(pr)
+        proc = await asyncio.create_subprocess_exec(binary, "get", targ, cwd=work, stdout=pw, stderr=out, env=env)
+        os.close(pw)
+    else:
+        proc = await asyncio.create_subprocess_exec(binary, "get", targ, cwd=work, stdout=out, stderr=subprocess.STDOUT, env=env)
     tasks = [asyncio.create_task(incoming_peer(w, p)) for p in sc["peers"] if p["incoming"]]
     tasks += [asyncio.create_task(second_connection(w, p)) for p in sc["peers"] if p.get("second_connection_from_own_port")]
     expected = w.expected_files()
@@ -574,6 +596,13 @@ async def main():
                     continue
                 extra.append(rel)
     outside = []
+    for root, dirs, _ in os.walk(cell):
+        if os.path.abspath(root) == os.path.abspath(work) or os.path.abspath(root).startswith(os.path.abspath(work) + os.sep):
+            continue
+        for dn in dirs:
+            pth = os.path.abspath(os.path.join(root, dn))
+            if pth != os.path.abspath(work) and pth not in dirs_before and not pth.startswith(os.path.abspath(work) + os.sep):
+                outside.append(os.path.relpath(pth, cell) + "/")
     for root, _, files in os.walk(cell):
         if os.path.abspath(root) == os.path.abspath(work) or os.path.abspath(root).startswith(os.path.abspath(work) + os.sep):
             continue
@@ -590,7 +619,7 @@ async def main():
         "piece_files": len(piece_files), "pieces": len(w.pieces), "piece_problems": problems[:3],
         "panics": panics, "sanitizer": san, "unexpected_files": extra[:3],
         "tracker_requests": w.tracker_requests, "handshakes_ok": w.handshakes_ok, "handshakes_bad": w.handshakes_bad,
-        "bytes_moved": w.bytes_moved, "second_connections": w.second_connections, "hostile": w.hostile, "closed_by_client": w.closed_by_client[:10], "conn_life": [dict(l, lived_s=l.get("lived_s", round(time.time() - l["t0"], 1)), t0=round(l["t0"] - T0, 2)) for l in w.conn_life[:10]], "peak_rss_kb": hwm, "log_tail": w.log[-25:], "stdout_tail": stdout[-600:],
+        "bytes_moved": w.bytes_moved, "second_connections": w.second_connections, "handshake_reply_s": w.handshake_reply_s[:8], "hostile": w.hostile, "closed_by_client": w.closed_by_client[:10], "conn_life": [dict(l, lived_s=l.get("lived_s", round(time.time() - l["t0"], 1)), t0=round(l["t0"] - T0, 2)) for l in w.conn_life[:10]], "peak_rss_kb": hwm, "log_tail": w.log[-25:], "stdout_tail": stdout[-600:],
     }))
 
 
